@@ -11,7 +11,7 @@ THOROUGH_RUNS = 3000000
 QUICK_WALL = 100
 THOROUGH_WALL = 900
 CHUNK = 400
-OWN = {"range-false-refuse", "history-unbounded", "link-value", "link-exception", "push-raises"}
+OWN = {"range-false-refuse", "history-unbounded", "link-value", "link-exception", "push-raises", "link-mask", "link-shape"}
 RULE = ("seeded interleavings of publications (increasing times, irregular gaps) and pulls of 1-4 consumers "
         "(non-decreasing request times, strongly diverging speeds, duplicates, midpoints), consumers direct or "
         "behind pass-through, push-based and delay adapters; every pull is compared with an unlimited-history "
@@ -24,6 +24,8 @@ ASSUMPTIONS = [
     "every consumer's request times are non-decreasing (a refused out-of-range request does not count)",
     "a push-based adapter counts as a consumer that pulled at the newest notification",
     "thorough tier adds long histories (up to 2000 events)",
+    "a quarter of the runs under storage pressure (memory limit 0..200 bytes on the output and on push-based adapters: "
+    "retained entries live in spill files), gridded payloads plain or masked (partial mask / masked array without mask)",
 ]
 
 
@@ -72,8 +74,16 @@ def generate(tape, tier="quick"):
     if tape.chance(1, 5):
         from ..grids import gen_structured
         src["grid"] = gen_structured(tape, max_dim=2, max_len=3)
+        if tape.chance(1, 2):
+            src["masked"] = tape.choice(["partial", "nomask"])
+    if tape.chance(1, 4):
+        # storage pressure: retained history (and adapter buffers) partly or completely on disk
+        src["mem_limit"] = tape.choice([0, 0, 10, 60, 200])
+        for c in cons:
+            if "shared_with" not in c and tape.chance(1, 2):
+                c["mem_limit"] = tape.choice([0, 10, 60])
     return {"engine": "E3", "src": src, "consumers": cons, "events": events,
-            "exchange_order": tape.shuffle(list(range(n_cons)))}
+            "exchange_order": tape.shuffle(list(range(n_cons))), "api": tape.draw(16)}
 
 
 def execute(sc):
